@@ -354,7 +354,12 @@ impl<T: Qcow2IoOps> Qcow2Dev<T> {
         while let Some(idx) = rt.pop_dirty_blk_idx(None) {
             let start = idx << self.info.block_size_shift;
             let size = 1 << self.info.block_size_shift;
-            self.flush_table(rt, start, size).await?
+            if let Err(e) = self.flush_table(rt, start, size).await {
+                // this block isn't written, keep it dirty so that retrying
+                // the flush writes it
+                rt.set_dirty((start as usize) >> 3);
+                return Err(e);
+            }
         }
 
         Ok(())
@@ -379,11 +384,22 @@ impl<T: Qcow2IoOps> Qcow2Dev<T> {
             let start = key_fn((idx as u64) << bs_bits);
             let end = key_fn(((idx + 1) as u64) << bs_bits);
 
-            if self.flush_cache(cache, start, end).await? {
+            let res = match self.flush_cache(cache, start, end).await {
                 // order cache flush and the upper layer table
-                self.call_fsync(0, usize::MAX, 0).await?;
+                Ok(true) => self.call_fsync(0, usize::MAX, 0).await,
+                Ok(false) => Ok(()),
+                Err(e) => Err(e),
+            };
+            let res = match res {
+                Ok(_) => self.flush_table(rt, idx << bs_bits, 1 << bs_bits).await,
+                Err(e) => Err(e),
+            };
+            if let Err(e) = res {
+                // this block isn't written, keep it dirty so that retrying
+                // the flush writes it
+                rt.set_dirty(((idx as usize) << bs_bits) >> 3);
+                return Err(e);
             }
-            self.flush_table(rt, idx << bs_bits, 1 << bs_bits).await?;
             Ok(false)
         } else {
             // flush cache without holding top table read lock
